@@ -33,6 +33,17 @@ pub fn matches(f: &Finding, v: &Violation) -> bool {
                 _ => false,
             }
         }
+        "stack_overflow_depth" => {
+            // isolated worker killed by a stack overflow at a nesting depth >= min_depth, while 1/8 of the depth survives
+            let min = f.params["min_depth"].as_u64().unwrap_or(4096);
+            let d = v.extra["depth"].as_u64().unwrap_or(0);
+            if v.oracle != "depth-ladder" || d < min || !(v.detail.contains("signal 6") || v.detail.contains("signal 11")) || !v.detail.contains("overflow") {
+                return false;
+            }
+            let mut ex = v.extra.clone();
+            ex["depth"] = serde_json::json!(d / 8);
+            crate::p_total::ladder_violated(&ex, v.cfg.unwrap_or(crate::fmtx::Cfg::w(80))) == Some(false)
+        }
         "panic_site" => {
             let site = f.params["site"].as_str().unwrap_or("\u{0}");
             v.detail.contains(site)
@@ -370,6 +381,7 @@ pub fn repair(name: &str, input: &str) -> Option<String> {
         "paren_literal_then_text" => repair_paren_literal_then_text(input),
         "table_columns_paren" => repair_table_columns_paren(input),
         "comment_only_content" => repair_comment_only_content(input),
+        "cli_f14" => crate::p_cli::repair_f14(input),
         _ => None,
     }
 }
